@@ -549,6 +549,9 @@ class ConnectionPool(Entity):
         """Create a new connection to the target."""
         # Simulate connection establishment time
         latency = self._connection_latency.get_latency(self.now)
+        # Reserve the pool slot before the set-up delay, so that acquirers arriving
+        # while this connection is being established cannot exceed max_connections.
+        self._total_connections += 1
         yield latency.to_seconds()
 
         self._next_connection_id += 1
@@ -558,7 +561,6 @@ class ConnectionPool(Entity):
             last_used_at=self.now,
             is_active=False,
         )
-        self._total_connections += 1
         self._connections_created += 1
 
         logger.debug(
